@@ -863,7 +863,7 @@ func (f *SQLFormatter) formatWithClause(with *ast.WithClause) error {
 		if i > 0 {
 			f.builder.WriteString(", ")
 		}
-		f.builder.WriteString(cte.Name)
+		f.builder.WriteString(quoteName(cte.Name))
 
 		if len(cte.Columns) > 0 {
 			f.builder.WriteString(" (")
@@ -871,7 +871,7 @@ func (f *SQLFormatter) formatWithClause(with *ast.WithClause) error {
 				if j > 0 {
 					f.builder.WriteString(", ")
 				}
-				f.builder.WriteString(col)
+				f.builder.WriteString(quoteName(col))
 			}
 			f.builder.WriteString(")")
 		}
